@@ -86,8 +86,11 @@ def main():
     seeds = a.seeds or sorted(d.name for d in (VERIF / 'seeded').iterdir() if (d / 'patch.diff').exists())
     jobs = []
     for s in seeds:
-        prop = json.loads((VERIF / 'seeded' / s / 'meta.json').read_text())['property']
-        jobs.append((s, a.checks.split(',') if a.checks else [prop]))
+        meta = json.loads((VERIF / 'seeded' / s / 'meta.json').read_text())
+        if meta.get('obsolete') and not a.seeds:
+            continue          # no longer a violation on the current HEAD (see meta.json: obsolete_why)
+        # `caught_by`: the checks expected to catch the change when it is not (only) the check of its own property
+        jobs.append((s, a.checks.split(',') if a.checks else meta.get('caught_by') or [meta['property']]))
     if a.clean:
         jobs.append(('CLEAN', a.checks.split(',')))
     res = {}
